@@ -1198,6 +1198,12 @@ def _case_tag(case):
 
 
 def check_wallet(ctx, case):
+    from props import wallet_util as _wu
+    with _wu.deterministic_gc():
+        return _check_wallet_inner(ctx, case)
+
+
+def _check_wallet_inner(ctx, case):
     wl = _wallets()
     spec = case['spec']
     tag = _case_tag(case)
